@@ -607,6 +607,12 @@ def main(ck):
                 ck.broken.append(dict(name="harness h_c19 (%s) died outside a case" % cfg, detail=tail))
                 continue
             op = cc["ops"][opi] if 0 <= opi < len(cc["ops"]) else None
+            if op is not None and len(cc["ops"]) > 2:
+                # the abort depends on the call, not on the history: try the single call as the replay
+                mc = dict(id=1, group="replay", type=cc["type"], init=cc["init"], ops=[op])
+                r2, cr2 = run_cases(exeF if cfg == "F" else exeT, [mc], cfg + "min", max_crashes=0)
+                if cr2 and cr2[0][0] is not None:
+                    cc, opi, tail = mc, 0, cr2[0][3] or tail
             m = re.search(r"Assertion '([^']*)' failed", tail)
             what = "[%s] yaclib_std::atomic<%s>: %s aborts (signal %s%s) where std::atomic is defined; case: %s" % (
                 cfg, cc["type"],
